@@ -10,7 +10,7 @@ Line-protocol oracle for C19, suite `config-runs` (stateful: the data facts).
   env <dataset> <bind0> <never0> … <bind5> <never5>   -> ok
         limit zones of a data set (thousandths), extracted by the harness from the real catchment model,
         in the order of `limitKeys`
-  cfg <entry> …                                       -> load=<ok|err:decode|err:unknown+mandatory(F,..)> interp=<ok|err:model,annealer,scenario|panic|->
+  cfg <entry> …                                       -> load=<ok|err> interp=<ok|err:model,annealer,scenario|panic|->
         the structured configuration: <entry> = <sec>/<key>=<kind>:<value>
         sec  S SU SR SRL A AP M MP MD Z T (T = bare top-level keys);  kind  i (integer) f (decimal, millionths, any number of digits) s (string) b (0|1)
         p (path symbol) t (table) a (array) d (datetime); in keys and strings a blank, `%` and every control character
@@ -120,7 +120,9 @@ def parseRepairs (ws : List String) : Repairs :=
 
 def verdictLine (r : Repairs) (c : Cfg) : String :=
   match verdict r c with
-  | .loadError es => "load=err:" ++ "+".intercalate (es.map loadErrStr) ++ " interp=-"
+  -- WHICH complaints the loader makes (decode / unknown key / which mandatory fields) is told apart by the model; the loader says
+  -- it in message texts only, whose wording is nobody's contract: the property needs "reported through an error value"
+  | .loadError _ => "load=err interp=-"
   | .interpretPanic => "load=ok interp=panic"
   | .accepted => "load=ok interp=ok"
   | .interpretError es => "load=ok interp=err:" ++ ",".intercalate ((visible es).map secErrStr)
